@@ -808,6 +808,13 @@ class LibMixin:
             return ListMethod(obj, name)
         if isinstance(obj, Rng):
             return self.rng_method(obj, name)
+        if isinstance(obj, PropertyModel):
+            if name == 'setter':
+                def setter(I, a, k, prop=obj):
+                    return PropertyModel(prop.fget, a[0])
+                return Builtin('property.setter', setter)
+            if name == 'getter':
+                return Builtin('property.getter', lambda I, a, k, prop=obj: PropertyModel(a[0], prop.fset))
         if isinstance(obj, SuperProxy):
             return self.super_getattr(obj, name)
         if isinstance(obj, (int, float)) or is_z3(obj):
@@ -993,6 +1000,8 @@ class LibMixin:
     def truth_term_ext(self, v):
         if isinstance(v, CSet):
             return len(v.items) > 0
+        if isinstance(v, GenList):
+            return concretize(self.fview(v)['n'] > 0)
         if isinstance(v, (Opaque, BuiltinType, Partial, SymCallable, Rng)):
             return True
         return None
